@@ -9,8 +9,9 @@ import PxModel.Generated
     * `HttpProxyPlugin.connect_upstream` (proxy/http/proxy/server.py): the
       `if host and port` guard, `text_(host)` (UTF-8 decode), the bracket
       stripping of IPv6 literals (fix 992f8c3) and the address handed to
-      `TcpServerConnection(connect_host, port).connect()` (no plugin overrides
-      `resolve_dns`, no connection pool: the defaults);
+      `TcpServerConnection(connect_host, port).connect()` or, with
+      `--enable-conn-pool`, to `upstream_conn_pool.acquire((connect_host, port))`
+      (no plugin overrides `resolve_dns`);
     * `new_socket_connection` (proxy/common/utils.py): literal-vs-name
       dispatch; what `ipaddress.ip_address` accepts is a pair of parameters
       (`isV4`, `isV6`) that the harness evaluates with the real module;
@@ -43,8 +44,8 @@ structure Addr where
 def stripBrackets (h : Bytes) : Bytes :=
   if h.head? == some LBR && h.getLast? == some RBR then (h.drop 1).dropLast else h
 
-/-- `connect_upstream`: the address the connection is opened to, or how it fails
-    before any connect attempt is made. -/
+/-- `connect_upstream` without connection pool (the default): the address given to
+    `TcpServerConnection(connect_host, port)`, or how it fails before any connect attempt is made. -/
 def connectUpstream (host : Option Bytes) (port : Option Int) : Except Err Addr :=
   match host, port with
   | some h, some p =>
@@ -52,6 +53,26 @@ def connectUpstream (host : Option Bytes) (port : Option Int) : Except Err Addr 
     else if !utf8Valid h then .error .unicodeError
     else .ok ⟨stripBrackets h, p⟩
   | _, _ => .error .httpProtocol
+
+/-- `connect_upstream`, both branches.  `pool` = `flags.enable_conn_pool`: the
+    address is then the key handed to `upstream_conn_pool.acquire(...)`, otherwise
+    the arguments of `TcpServerConnection(...)`; `connect_host` (brackets stripped)
+    is computed before the branch and used by both. -/
+def connectUpstreamP (pool : Bool) (host : Option Bytes) (port : Option Int) : Except Err Addr :=
+  match host, port with
+  | some h, some p =>
+    if h.isEmpty || p == 0 then .error .httpProtocol     -- `if host and port` is falsy
+    else if !utf8Valid h then .error .unicodeError       -- text_(host)
+    else
+      let connectHost := stripBrackets h
+      if pool then .ok ⟨connectHost, p⟩                  -- upstream_conn_pool.acquire((connect_host, port))
+      else .ok ⟨connectHost, p⟩                          -- TcpServerConnection(connect_host, port)
+  | _, _ => .error .httpProtocol
+
+/-- `UpstreamConnectionPool.acquire(addr)` on a pool without a reusable connection for
+    `addr`: `add(addr)` → `TcpServerConnection(addr[0], addr[1]).connect()` →
+    `new_socket_connection(addr)`; a reused connection is one that was created for the same key. -/
+def poolAcquire (a : Addr) : Addr := ⟨a.host, a.port⟩
 
 /-- which OS-level path `new_socket_connection` takes, with its arguments -/
 inductive Route
@@ -99,18 +120,19 @@ def forwardLine (p : Px.Parser.Parser) : Bytes :=
     | none => [SLASH]
   join [SP] [p.method.getD [], path, p.version.getD []]
 
-/-- first request of a connection, received in the pieces `segs` -/
-def handleFirst (cfg : Px.Parser.Cfg) (segs : List Bytes) : Outcome :=
+/-- first request of a connection, received in the pieces `segs`
+    (`pool` = `--enable-conn-pool`; the pool is fresh) -/
+def handleFirst (cfg : Px.Parser.Cfg) (pool : Bool) (segs : List Bytes) : Outcome :=
   match Px.Parser.parseAll cfg (Px.Parser.init .request) segs with
   | .error _ => .reject400
   | .ok p =>
     if p.state != .complete then .incomplete
     else match handlerProtocol p with
       | some true =>
-        match connectUpstream p.host p.port with
+        match connectUpstreamP pool p.host p.port with
         | .error .httpProtocol => .closeSilent
         | .error .unicodeError => .raisedUnicode
-        | .ok a => .connected a p.isTunnel (forwardLine p)
+        | .ok a => .connected (if pool then poolAcquire a else a) p.isTunnel (forwardLine p)
       | _ => .reject400        -- UNKNOWN, or WEB_SERVER with no web plugin loaded
 
 /-! ## Specification side: request-targets -/
